@@ -1,6 +1,15 @@
 import Cactus.Lemmas.Basic
 /-!
 # C16 — cloning a handle to a destroyed object aborts; dropping it has no effect
+
+What is proved here (the property is about single calls, so these are statements about one call in
+an arbitrary state):
+* `C16_clone_dead_aborts`, `C16_cloneField_dead_aborts` (the only way safe code can clone such a
+  handle: a destructor cloning one of its own fields), `C16_abort_is_final`, `C16_drop_dead_noop`;
+* example: both situations inside a real group teardown (a destructor that clones its handle to an
+  already dead peer; the drop glue dropping a handle to an already dead peer).
+Not proved: that `abort` is what the real process does is observed by the harness (subprocess exit
+status).
 -/
 namespace Cactus
 open State
@@ -47,5 +56,65 @@ theorem C16_drop_dead_noop (s : State) (o : Nat) (ob : Obj)
 /-- non-vacuity: a dead, not yet released object -/
 example : ({ heap := [{ strong := .uninit, weak := 1, links := none, value := none, freed := false }] } : State).cell 0
     = some { strong := .uninit, weak := 1, links := none, value := none, freed := false } := by decide
+
+/-! ## Non-vacuity, inside a real teardown
+
+A two-cycle `0 ↔ 1` built with `link`; object 0's destructor clones its own strong field (its handle
+to 1).  The last `drop` collects the group, destroying value 1 first (hint `[1, 0]`):
+* while value 1's fields are dropped, the `Rc::drop` of its handle to the already dead member 0 is
+  the no-op of `C16_drop_dead_noop`;
+* when value 0's destructor then clones its handle to the already dead member 1, the machine aborts
+  as in `C16_cloneField_dead_aborts`. -/
+
+def cloneDeadBuild : List (Op × List Nat) :=
+  [(.act .new, []), (.act .new, []),
+   (.act (.clone 1), []), (.act (.link 2 0), []),       -- 0 → 1
+   (.act (.clone 0), []), (.act (.link 2 1), []),       -- 1 → 0
+   (.setScript 0 [.cloneField 0], []),                  -- 0's destructor clones its handle to 1
+   (.act (.drop 1), [])]                                -- program's handle to 1
+
+/-- the state in which the collecting `drop 0` has pushed its `rcDrop 0` frame -/
+def cloneDeadStart : State := applyOp { run cloneDeadBuild with hint := [1, 0] } (.act (.drop 0))
+
+/-- four steps later: value 1's drop glue is about to drop its handle to member 0 -/
+def cloneDeadMid4 : State := step (step (step (step cloneDeadStart)))
+
+/-- both members are already marked dead there, and the frame on top is `rcDrop 0` -/
+example : cloneDeadMid4.err = none
+    ∧ cloneDeadMid4.stack = [.rcDrop 0, .dropFields [] [],
+        .dropVal { vid := 0, held := [1], weaks := [], script := [.cloneField 0], panics := false },
+        .phase3 [1, 0]]
+    ∧ cloneDeadMid4.heap.map (·.strong) = [.uninit, .uninit] := by decide +kernel
+
+/-- `C16_drop_dead_noop` instantiated: running that frame changes nothing -/
+example : ({ cloneDeadMid4 with stack := cloneDeadMid4.stack.tail } : State).rcDrop 0
+    = { cloneDeadMid4 with stack := cloneDeadMid4.stack.tail } :=
+  C16_drop_dead_noop _ 0
+    { strong := .uninit, weak := 1, links := none, value := none, freed := false }
+    (by decide +kernel) rfl
+
+/-- three more steps: value 0's destructor body is about to run `cloneField 0` -/
+def cloneDeadMid7 : State := step (step (step cloneDeadMid4))
+
+example : cloneDeadMid7.err = none
+    ∧ cloneDeadMid7.stack = [.script [1] [] [.cloneField 0], .dropFields [1] [], .phase3 [1, 0]] := by
+  decide +kernel
+
+/-- `C16_cloneField_dead_aborts` instantiated at the state in which the script action runs (the
+`script` frame popped, its remainder pushed back: `C10_script_uses_applyAct`) -/
+example : (applyAct (({ cloneDeadMid7 with stack := [.dropFields [1] [], .phase3 [1, 0]] } : State).push
+      [.script [1] [] []]) [1] [] (.cloneField 0)).err = some .abort :=
+  C16_cloneField_dead_aborts _ [1] [] 0 1
+    { strong := .uninit, weak := 1, links := none, value := none, freed := false }
+    (by decide) (by decide +kernel) rfl (by decide +kernel)
+
+/-- by evaluation: that is the next machine step, the whole history ends in the sticky `abort` state
+(`C16_abort_is_final`), and value 0's destructor had started but nothing was released -/
+example : (step cloneDeadMid7).err = some .abort
+    ∧ (run (cloneDeadBuild ++ [(.act (.drop 0), [1, 0])])).err = some .abort
+    ∧ (run (cloneDeadBuild ++ [(.act (.drop 0), [1, 0]), (.act .new, [])])).err = some .abort
+    ∧ (run (cloneDeadBuild ++ [(.act (.drop 0), [1, 0])])).log
+        = [.traced 1 2 3, .traced 0 2 3, .destroyed 1, .destroyed 0] := by
+  decide +kernel
 
 end Cactus
